@@ -75,7 +75,7 @@ mut('c02-avgpool-stride-as-dilation', ['C02'], 'avg_pool1d closure passes dilati
     [(NF, "cpu_ops.avg_pool1d_backward(grad_output.data, kernel_size, stride, padding, dilation, *bw_data)", "cpu_ops.avg_pool1d_backward(grad_output.data, kernel_size, dilation, padding, stride, *bw_data)")], rules=['C02.SAVED'])
 mut('c02-bias-unguarded', ['C02'], 'conv1d accumulates into bias without the requires_grad guard',
     [(NF, "        if bias and bias.requires_grad:\n            bias._grad += bias_grad\n            \n    if out.requires_grad: out.grad_fn = BackwardFunction(backward, out._operation)\n\n    return out",
-      "        if bias:\n            bias._grad += bias_grad\n            \n    if out.requires_grad: out.grad_fn = BackwardFunction(backward, out._operation)\n\n    return out")], rules=['C02.ACC'])
+      "        if bias:\n            bias._grad += bias_grad\n            \n    if out.requires_grad: out.grad_fn = BackwardFunction(backward, out._operation)\n\n    return out")], rules=['C02.COVER'])
 mut('c02-mse-target-dropped', ['C02'], 'mse_loss no longer back-propagates into the target',
     [(NF, "        if y_true.requires_grad: y_true._grad += -loss_grad_data\n", "")], rules=['C02.COVER'])
 mut('c02-mse-target-same-sign', ['C02'], 'mse_loss gives the target the un-negated gradient',
